@@ -15,6 +15,7 @@ import (
 	"math"
 	"net"
 	"strings"
+	"sync"
 	"time"
 
 	"github.com/AdguardTeam/golibs/logutil/slogutil"
@@ -134,7 +135,11 @@ type vc17Env struct {
 	mains   []vc17Node
 	fbs     []vc17Node
 	backoff time.Duration
+	logMu   sync.Mutex
 	log     []vc17Call
+
+	// onMainAsked, if set, is told which main a checked query went to.
+	onMainAsked func(idx int)
 
 	// Reference state.
 	active []bool
@@ -170,7 +175,9 @@ func vc17NewHandler(mainConfs, fbConfs []*UpstreamPlainConfig, backoff, initDur 
 	})
 	// The handler's own selection randomness is made a function of the drawn
 	// seed so that every history replays.
-	h.rand = rand.New(rand.NewSource(seed))
+	src := &rand.LockedSource{}
+	src.Seed(seed)
+	h.rand = rand.New(src)
 
 	return h
 }
@@ -224,7 +231,12 @@ func vc17NewEnv(h *Handler, mains, fbs []vc17Node, backoff time.Duration) (e *vc
 
 func (e *vc17Env) class(c string) { e.classes[c] = struct{}{} }
 
-func (e *vc17Env) record(c vc17Call) { e.log = append(e.log, c) }
+func (e *vc17Env) record(c vc17Call) {
+	e.logMu.Lock()
+	defer e.logMu.Unlock()
+
+	e.log = append(e.log, c)
+}
 
 func (e *vc17Env) activeCount() (n int) {
 	for _, a := range e.active {
@@ -289,9 +301,9 @@ func (e *vc17Env) describe() string {
 	return b.String()
 }
 
-func (e *vc17Env) logString() string {
+func vc17LogString(calls []vc17Call) string {
 	var b strings.Builder
-	for _, c := range e.log {
+	for _, c := range calls {
 		k := "query"
 		if c.probe {
 			k = "probe"
@@ -486,19 +498,78 @@ func (e *vc17Env) query(ctx context.Context, fail vc17Fail, name string, qtype u
 	fmt.Fprintf(&e.hist, "Q ")
 	e.log = e.log[:0]
 
+	rw, err := e.send(ctx, name, qtype, id)
+	e.checkQuery(fail, name, qtype, id, e.log, rw, err)
+}
+
+// send puts one query through the real handler.
+func (e *vc17Env) send(ctx context.Context, name string, qtype uint16, id uint16) (rw *vc17RW, err error) {
 	req := &dns.Msg{
 		MsgHdr:   dns.MsgHdr{Id: id, RecursionDesired: true},
 		Question: []dns.Question{{Name: name, Qtype: qtype, Qclass: dns.ClassINET}},
 	}
-	rw := &vc17RW{}
-	err := e.h.ServeDNS(ctx, rw, req)
+	rw = &vc17RW{}
+	err = e.h.ServeDNS(ctx, rw, req)
 
-	where := func() string {
-		return fmt.Sprintf("query %q id=%d: calls: %s; err=%v; written=%d (%s)\n%s",
-			name, id, e.logString(), err, len(rw.msgs), vc17TagOf(vc17First(rw.msgs)), e.describe())
+	return rw, err
+}
+
+// burst sends k queries with distinct names at the same time and checks each
+// of them like a single query; the behaviours of the upstreams do not change
+// during the burst.
+func (e *vc17Env) burst(ctx context.Context, fail vc17Fail, qtype uint16, ids []uint16) {
+	fmt.Fprintf(&e.hist, "B%d ", len(ids))
+	e.log = e.log[:0]
+
+	type result struct {
+		rw  *vc17RW
+		err error
 	}
 
-	for _, c := range e.log {
+	results := make([]result, len(ids))
+	names := make([]string, len(ids))
+	var wg sync.WaitGroup
+	for i := range ids {
+		names[i] = fmt.Sprintf("b%d.burst.example.", i)
+		wg.Add(1)
+		go func() {
+			defer wg.Done()
+
+			rw, err := e.send(ctx, names[i], qtype, ids[i])
+			results[i] = result{rw: rw, err: err}
+		}()
+	}
+
+	wg.Wait()
+
+	all := append([]vc17Call(nil), e.log...)
+	for i := range ids {
+		var calls []vc17Call
+		for _, c := range all {
+			if c.qname == names[i] {
+				calls = append(calls, c)
+			}
+		}
+
+		e.checkQuery(fail, names[i], qtype, ids[i], calls, results[i].rw, results[i].err)
+	}
+
+	for _, c := range all {
+		if !strings.HasSuffix(c.qname, ".burst.example.") {
+			fail("an upstream received %q during a burst of other queries\n%s", c.qname, e.describe())
+		}
+	}
+}
+
+// checkQuery checks where one query went (calls, in order) and what the client
+// got.
+func (e *vc17Env) checkQuery(fail vc17Fail, name string, qtype uint16, id uint16, calls []vc17Call, rw *vc17RW, err error) {
+	where := func() string {
+		return fmt.Sprintf("query %q id=%d: calls: %s; err=%v; written=%d (%s)\n%s",
+			name, id, vc17LogString(calls), err, len(rw.msgs), vc17TagOf(vc17First(rw.msgs)), e.describe())
+	}
+
+	for _, c := range calls {
 		if c.probe || c.qname != name || c.qtype != qtype {
 			fail("an upstream received something other than the client's question: %+v\n%s", c, where())
 		}
@@ -537,7 +608,7 @@ func (e *vc17Env) query(ctx context.Context, fail vc17Fail, name string, qtype u
 	}
 
 	var mainCalls, fbCalls []vc17Call
-	for _, c := range e.log {
+	for _, c := range calls {
 		if c.main {
 			mainCalls = append(mainCalls, c)
 		} else {
@@ -574,11 +645,15 @@ func (e *vc17Env) query(ctx context.Context, fail vc17Fail, name string, qtype u
 		fail("want exactly one attempt on a main upstream, got %d\n%s", len(mainCalls), where())
 	}
 
-	if !e.log[0].main {
+	if !calls[0].main {
 		fail("a fallback was asked before the main upstream\n%s", where())
 	}
 
 	mi := mainCalls[0].idx
+	if e.onMainAsked != nil {
+		e.onMainAsked(mi)
+	}
+
 	if !e.active[mi] {
 		fail("main %s is out of rotation but received the query\n%s", e.mains[mi].vc17Name(), where())
 	}
